@@ -260,3 +260,103 @@ K("T1.cell_text_all_chars", ["C04", "C03"], FRAG, "check_cell_text_all_chars", "
 K("A4.fragment_can_fit", ["C10", "C16"], FRAG, "check_fragment_can_fit", "Fragment::can_fit",
   "can_fit <=> the container's bounds() contain the content's bounds() (all four comparisons)",
   assumes=["<Fragment as Bounds>::bounds replaced by opaque results (per-type contracts: N4.*_bounds)"])
+
+CB = "buffer/cell_buffer.rs"
+K("N1.get_size", ["C11", "C12"], CB, "check_get_size", "CellBuffer::get_size",
+  "w = scale*(last column+2)*1, h = scale*(last row+2)*2 (IEEE products, bit for bit); empty => (0,0) bounds",
+  assumes=["CellBuffer::bounds replaced by an opaque result (BTreeMap iteration; its contract N2 is a bounded stand-in)"])
+K("N1.get_size_default", ["C11", "C12"], CB, "check_get_size_default_scale", "CellBuffer::get_size",
+  "at scale 8: exactly 8*(col+2) x 16*(row+2) for all cells < 2^17; empty => 16 x 32",
+  assumes=["CellBuffer::bounds replaced by an opaque result"])
+K("C17.blank_filter", ["C17", "C04"], CB, "check_blank_filter_all_chars", "From<StringBuffer> for CellBuffer (cell filter predicate)",
+  "for every char: space, tab, CR, LF, NUL never become cells; every visible ASCII character does",
+  assumes=["the predicate `ch != NUL && !ch.is_whitespace()` is the one From<StringBuffer> applies (checked against the real function by the bounded stand-in T7)"])
+
+K("C18.fragments_to_node_111", ["C18", "C02"], CB, "check_fragments_to_node_111", "CellBuffer::fragments_to_node",
+  "root = svg[xmlns, width=w, height=h, class=svgbob] (exactly 4 attributes); children = [style]? [defs]? [rect.backdrop 0,0,w,h]? ++ fragment nodes, each present iff its switch; all 8 combinations, all f32 w,h",
+  kmod="k18", timeout=600,
+  assumes=["CellBuffer::style, get_defs, FragmentTree::fragments_to_node replaced by opaque marker nodes"])
+
+# ------------------------------------------------------------------------------------------------
+# Verus: unbounded fix-points (M1 - M3)
+# ------------------------------------------------------------------------------------------------
+V("M1.second_pass_merge", ["C01", "C09", "C10", "C04"], "merge", "second_pass_merge", "Merge::second_pass_merge",
+  "for every item type and list length: the loop terminates and returns at most as many items as it was given "
+  "(invariant new_groups.len() <= items consumed)", "merge.rs")
+V("M2.merge_recursive", ["C01", "C09", "C10"], "merge", "merge_recursive", "Merge::merge_recursive",
+  "terminates for every list (decreases items.len(): recursion only while the list strictly shrinks, depth <= len); "
+  "result no longer than the input", "merge.rs")
+V("M.canary", ["C01", "C09", "C10", "C04"], "merge_canary", "second_pass_merge", "Merge::second_pass_merge",
+  "deliberately false: second_pass_merge always shrinks the list", "merge.rs", canary=True)
+V("M3.second_pass_enclose", ["C01", "C16", "C10"], "enclose", "second_pass_enclose", "FragmentTree::second_pass_enclose",
+  "for every list length: terminates, returns at most as many trees as given", "buffer/fragment_buffer/fragment_tree.rs")
+V("M3.enclose_recursive", ["C01", "C16", "C10"], "enclose", "enclose_recursive", "FragmentTree::enclose_recursive",
+  "terminates for every list (decreases len), recursion depth <= len", "buffer/fragment_buffer/fragment_tree.rs")
+
+END = "buffer/cell_buffer/endorse.rs"
+K("RP.parallel_aabb_group", ["C05", "C01"], END, "check_parallel_aabb_group4", "endorse::parallel_aabb_group",
+  "for 4 fragments and every parallel relation: result = greedy matching in lexicographic order; pairs distinct, related, no index twice",
+  timeout=600, assumes=["Fragment::is_aabb_parallel replaced by an opaque relation on the fragment indices (its contract: FP)"])
+K("FP.fragment_is_aabb_parallel", ["C05", "C01"], END, "check_fragment_is_aabb_parallel", "Fragment::is_aabb_parallel / Line::is_aabb_parallel / is_aabb_perpendicular / as_line / as_arc",
+  "only (Line,Line) pairs are parallel; lines: both horizontal with equal x extent or both vertical with equal y extent", timeout=300)
+for _m in ("m0", "m1", "m2"):
+    K("RS.is_rect_sound_" + _m, ["C05", "C03", "C01"], END, "check_is_rect_sound_" + _m, "endorse::is_rect",
+      "never panics on as_line().expect; true => the four fragments are lines and exactly the four sides of their bounding box "
+      "(case: parallel_aabb_group returns the perfect matching %s)" % _m,
+      timeout=900, timeout_thorough=3600, heavy=True,
+      assumes=["parallel_aabb_group replaced by its contract (greedy matching over the real relation: RP + FP), split into its possible results",
+               "lattice lines (quick < 64 cells, thorough < 1024)",
+               "validity of a contact group's lines: not degenerate, no two coincident (they come out of merge_recursive: M2 + LM)"])
+    K("RC.is_rect_complete_" + _m, ["C05", "C03"], END, "check_is_rect_complete_" + _m, "endorse::is_rect",
+      "the four sides of any lattice rectangle, in any order and dashing, are recognised (case: matching %s)" % _m,
+      timeout=900, timeout_thorough=3600, heavy=True, assumes=["parallel_aabb_group replaced by its contract (RP, FP)"])
+K("RS.is_rect_few_pairs", ["C05", "C01"], END, "check_is_rect_sound_few_pairs", "endorse::is_rect",
+  "fewer than two parallel pairs, or not exactly four fragments: not a rect, nothing indexed", timeout=600, heavy=True)
+K("RC.is_rect_pairing", ["C05"], END, "check_is_rect_complete_pairing", "spec of endorse::parallel_aabb_group on rectangle sides",
+  "the four sides of a rectangle, in any order, always pair up into one of the three perfect matchings (so the case split is exhaustive)",
+  timeout=600, heavy=True)
+K("RS.endorse_rect", ["C05", "C03"], END, "check_endorse_rect", "endorse::endorse_rect",
+  "Some(r) <=> is_rect; r = the box whose four sides the lines are; sharp, unfilled, dashed iff any side is",
+  timeout=900, timeout_thorough=3600, heavy=True,
+  assumes=["is_rect replaced by its contract (RS.is_rect_sound)", "<Fragment as Bounds>::bounds replaced by its contract (N4.line_bounds)"])
+B("RB.is_rect_shapes", ["C05", "C03"], END, "bounded_is_rect_shapes", "endorse::endorse_rect / is_rect / parallel_aabb_group (real bodies, no stubs)",
+  "every rectangle (any order of the sides, any dashing) is endorsed as exactly that rect; ladders, overhanging and inset variants are not",
+  "corner coordinates from {0, 0.5, 1, 2.5, 7}: 100 rectangles x 16 dashings x 24 orders + 4 non-rectangle variants x 2 overhangs x 24 orders")
+
+# ------------------------------------------------------------------------------------------------
+# C18: entry points (Verus, callees uninterpreted) + child list (bounded: sauron is beyond Kani)
+# ------------------------------------------------------------------------------------------------
+V("C18.get_node_with_size", ["C18", "C12"], "entry_points", "get_node_with_size", "CellBuffer::get_node_with_size",
+  "returns (document(cb, settings, w, h), w, h) with (w, h) = get_size(settings): the canvas size is the only thing taken from get_size",
+  "buffer/cell_buffer.rs")
+V("C18.get_node_override_size", ["C18"], "entry_points", "get_node_override_size", "CellBuffer::get_node_override_size",
+  "returns document(cb, settings, w, h) for the given (w, h): the same document function as get_node_with_size, only (w, h) differ "
+  "(an overridden size changes nothing else)", "buffer/cell_buffer.rs")
+V("C18.get_node", ["C18"], "entry_points", "get_node", "CellBuffer::get_node",
+  "= get_node_with_size(default settings).0", "buffer/cell_buffer.rs")
+V("C18.to_svg", ["C18"], "lib_entry", "to_svg", "svgbob::to_svg",
+  "= pretty rendering of the default-settings node of CellBuffer::from(ascii): the same value as to_svg_string_pretty", "lib.rs")
+V("C18.to_svg_string_pretty", ["C18"], "lib_entry", "to_svg_string_pretty", "svgbob::to_svg_string_pretty",
+  "= Node::render (pretty) of get_node() of CellBuffer::from(ascii)", "lib.rs")
+V("C18.to_svg_string_compressed", ["C18"], "lib_entry", "to_svg_string_compressed", "svgbob::to_svg_string_compressed",
+  "= Node::render_to_string of the same node as the pretty printer", "lib.rs")
+V("C18.to_svg_with_settings", ["C18"], "lib_entry", "to_svg_with_settings", "svgbob::to_svg_with_settings",
+  "= pretty rendering of get_node_with_size(settings).0 of CellBuffer::from(ascii)", "lib.rs")
+V("C18.to_svg_with_override_size", ["C18"], "lib_entry", "to_svg_with_override_size", "svgbob::to_svg_with_override_size",
+  "= pretty rendering of get_node_override_size(settings, w, h) of CellBuffer::from(ascii)", "lib.rs")
+V("C18.canary", ["C18"], "merge_canary", "second_pass_merge", "Merge::second_pass_merge",
+  "deliberately false (engine canary)", "merge.rs", canary=True)
+
+B("C18.fragments_to_node_switches", ["C18", "C02"], CB, "bounded_fragments_to_node_switches", "CellBuffer::fragments_to_node (real style / defs / FragmentTree)",
+  "root = svg[xmlns, width=w, height=h, class=svgbob] (exactly 4 attributes); children = [style]? [defs]? [rect.backdrop 0,0,w,h]? ++ fragment nodes; "
+  "geometry identical whatever the switches",
+  "8 switch combinations x 4 canvas sizes x 0..2 line fragments (sauron Node construction exceeds Kani: > 25 min even for concrete inputs)")
+B("sink.style_text", ["C02", "C08"], CB, "bounded_style_sink", "CellBuffer::style",
+  "the style element has exactly one text child; no raw '<'; every '&' starts one of the five entities; only XML chars; un-escaping returns the payload",
+  "payloads of length <= 3 (thorough 4) over {<,&,>,],a,;,LF,U+0001,U+FFFE,\",'} in 3 channels: legend css, font family, stroke colour")
+B("C16.legend_css_format", ["C16"], CB, "bounded_legend_css_format", "CellBuffer::legend_css / add_css_styles",
+  "'.svgbob .name{ decl }' per entry, in order, joined by newlines", "0..3 entries x 3 names x 4 declarations")
+B("C15.escape_line", ["C15", "C01"], CB, "bounded_escape_line", "CellBuffer::escape_line (on top of parser::line_parse)",
+  "never panics; quoted segments found as '\"'..next '\"'; text stored verbatim (without fillers) at the opening quote's cell; "
+  "the segment's columns, quotes included, blanked; everything else untouched",
+  "all column-expanded rows of <= 6 tokens (thorough 8) over {\", a, |, space, e-acute, wide CJK + NUL filler} (no backslash)")
